@@ -197,6 +197,13 @@ def run(ctx):
     # multi-line tokens whose only line terminators are U+2028 / U+2029 / CR
     for lt in ('\u2028', '\u2029', '\r', '\r\n', '\n'):
         texts += ['/* a%s b */ x = 1;' % lt, "s = 'a\\%sb'; y = s;" % lt, 'a%sb = c' % lt, 'f(/*%s*/ 1,%s 2)' % (lt, lt)]
+    # format-control and white-space characters at the very start of the source (BOM, NBSP, ZWNBSP runs) and form feeds /
+    # vertical tabs inside multi-line tokens: offsets and columns are those of the text as passed in
+    rng0 = ctx.sub_rng('prefix')
+    for t in rng0.sample(texts, min(len(texts), ctx.n(40, 300))):
+        texts.append(rng0.choice(['\ufeff', '\ufeff\ufeff', '\xa0', '\ufeff\n', ' \ufeff ', '\t\x0b\x0c']) + t)
+    for ch in ('\x0b', '\x0c', '\x1c', '\x1d', '\x1e', '\x85', '\xa0', '\u2003'):
+        texts += ['/* a%sb */ x = 1;\ny = 2;' % ch, "s = 'a%sb'; y = s;\nz = 1;" % ch, '// c%sd\nw = 1;\nv = 2;' % ch]
     # S2b tie
     if getattr(ctx, 'drivers_ok', True):
         parsetie.parse_tie(ctx, texts[:ctx.n(150, 1200)])
